@@ -9,6 +9,8 @@
 #include <unistd.h>
 #include <time.h>
 #include <errno.h>
+#include <signal.h>
+#include <sys/time.h>
 #include "w2c2_base.h"
 
 typedef struct WasiFileDescriptorX { int fd; void* dir; char* path; } WasiFileDescriptorX;
@@ -53,6 +55,17 @@ void trap(Trap t) { fprintf(stderr, "agent: trap %d\n", (int)t); abort(); }
 
 static FILE* in;
 static FILE* out;
+
+/* "sigstorm <usec>": while a WASI call runs, the process receives SIGALRM (empty handler, SA_RESTART) every <usec> microseconds -
+ * a host that uses timers / child processes / profiling delivers signals at any moment; 0 switches it off */
+static long g_storm_usec;
+static void on_alarm(int s) { (void)s; }
+static void storm(int on) {
+    struct itimerval it;
+    memset(&it, 0, sizeof it);
+    if (on) { it.it_interval.tv_usec = g_storm_usec; it.it_value.tv_usec = g_storm_usec; }
+    setitimer(ITIMER_REAL, &it, NULL);
+}
 
 static int hexval(int c) { return c <= '9' ? c - '0' : (c | 32) - 'a' + 10; }
 
@@ -117,6 +130,13 @@ int main(int argc, char** argv) {
             fputs("mem ", out);
             for (k = 0; k < len; k++) fprintf(out, "%02x", g_mem->data[addr + k]);
             fputc('\n', out);
+        } else if (strcmp(cmd, "sigstorm") == 0) {
+            struct sigaction sa;
+            g_storm_usec = atol(strtok(NULL, " \n"));
+            memset(&sa, 0, sizeof sa);
+            sa.sa_handler = on_alarm; sa.sa_flags = SA_RESTART;
+            sigaction(SIGALRM, &sa, NULL);
+            fprintf(out, "ok\n");
         } else if (strcmp(cmd, "now") == 0) {
             struct timespec ts; int id = atoi(strtok(NULL, " \n"));
             clock_gettime(id == 0 ? CLOCK_REALTIME : id == 1 ? CLOCK_MONOTONIC : id == 2 ? CLOCK_PROCESS_CPUTIME_ID : CLOCK_THREAD_CPUTIME_ID, &ts);
@@ -124,6 +144,7 @@ int main(int argc, char** argv) {
         } else if (strcmp(cmd, "call") == 0) {
             char* fn = strtok(NULL, " \n"); int unstable = atoi(strtok(NULL, " \n")); U64 a[12]; int n = 0, known = 0; U32 r = 0xdead; char* t;
             while ((t = strtok(NULL, " \n")) && n < 12) a[n++] = strtoull(t, NULL, 10);
+            if (g_storm_usec > 0) storm(1);
             CALL(fd_write, fd_write(NULL, (U32)A(0), (U32)A(1), (U32)A(2), (U32)A(3)))
             CALL(fd_read, fd_read(NULL, (U32)A(0), (U32)A(1), (U32)A(2), (U32)A(3)))
             CALL(fd_pwrite, fd_pwrite(NULL, (U32)A(0), (U32)A(1), (U32)A(2), A(3), (U32)A(4)))
@@ -152,6 +173,7 @@ int main(int argc, char** argv) {
             CALL(environ_get, environ_get(NULL, (U32)A(0), (U32)A(1)))
             CALL(clock_time_get, clock_time_get(NULL, (U32)A(0), A(1), (U32)A(2)))
             CALL(random_get, random_get(NULL, (U32)A(0), (U32)A(1)))
+            if (g_storm_usec > 0) storm(0);
             if (strcmp(fn, "proc_exit") == 0) {
                 fflush(out);
                 if (unstable) wasi_unstable__proc_exit(NULL, (U32)A(0)); else wasi_snapshot_preview1__proc_exit(NULL, (U32)A(0));
